@@ -58,6 +58,11 @@ def run_masks_harness(chk, wd, defsets):
         o = json.loads(line)
         d = meta[o["id"]]
         what = None
+        if d["dup"] and "raise_err" in o and "ambiguous" in o["raise_err"]:
+            # a definition set that leaves one name on two flags is refused with a diagnostic (since the
+            # fix recorded in findings.d/C14.json): nothing to print, nothing to judge
+            chk.add("duplicate_name_sets_rejected_with_diagnostic")
+            continue
         if "panic" in o:
             what = "%s panics (%s): %s" % (o.get("stage"), o["panic"]["loc"], o["panic"]["msg"])
             key = "mask:panic:%s:%s" % (o.get("stage"), o["panic"]["loc"].replace("/repo/", ""))
